@@ -540,7 +540,27 @@ def _b_type(ex, a, k, n):
   raise Unsupported('type(%r)' % (v,))
 
 
+def _some_element(ex, gen, what):
+  """min()/max() over a generator: modelled as SOME element of it (which one is left
+  unspecified: a sound over-approximation), with the obligation that it is non-empty."""
+  saved, vars_, conds, _ = ex.open_gen(gen)
+  try:
+    elem = ex.eval(gen.node.elt)
+  finally:
+    ex.close_gen(gen, saved)
+  cond = z3.And(*conds) if conds else z3.BoolVal(True)
+  ex.oblige(z3.Exists(vars_, cond), 'safety', '%s() of a non-empty iterable' % what)
+  for v in vars_:
+    sk = z3.FreshConst(v.sort(), what)
+    cond = z3.substitute(cond, (v, sk))
+    elem = _subst_val(elem, v, sk)
+  ex.assume(cond)
+  return elem
+
+
 def _b_min(ex, a, k, n):
+  if len(a) == 1 and isinstance(a[0], Gen):
+    return _some_element(ex, a[0], 'min')
   if len(a) == 2:
     x, y = ex.as_int(a[0]), ex.as_int(a[1])
     return V(S.INT, z3.If(x <= y, x, y))
